@@ -634,10 +634,28 @@ func VH_C06_EmptyRepo() {
 		vh.Assert(!vos.Exists(p), "C06.empty-repository-left-behind")
 		vh.Cover("C06.removed-empty")
 	}
+	if scenario == 1 {
+		// the nested repository is not the parent's garbage
+		nb := digest.Canonical.FromBytes([]byte("nested"))
+		vh.Assert(vos.Exists(p+"/b/oci-layout") && vos.Exists(p+"/b/index.json") && vhBytesEqS(vos.Bytes(p+"/b/blobs/sha256/"+nb.Encoded()), []byte("nested")), "C06.nested-repository-damaged")
+		vh.Cover("C06.nested-checked")
+	}
 	// a later push is a valid layout again
 	r2 := vhRepo(st, "a")
 	vhPutBlob(r2, []byte("later"))
 	r2.Done()
 	vh.Assert(vos.Exists(p+"/oci-layout") && vos.Exists(p+"/index.json"), "C06.push-after-cleanup-not-a-layout")
 	vh.Cover("C06.emptyrepo-end")
+}
+
+func vhBytesEqS(a, b []byte) bool {
+	if len(a) != len(b) {
+		return false
+	}
+	for i := range a {
+		if a[i] != b[i] {
+			return false
+		}
+	}
+	return true
 }
